@@ -2,6 +2,7 @@
 #![allow(clippy::all)]
 
 pub mod alloc;
+pub mod conc;
 pub mod ds;
 pub mod engine;
 pub mod hist;
